@@ -490,6 +490,10 @@ pub struct Profile {
     pub use_probe: bool,
     /// out of 100: a block with 257..300 cheap transactions (indices cross one byte)
     pub p_big_block: u64,
+    /// out of 100: a big block has 1025..1100 transactions instead
+    pub huge_pct: u64,
+    /// how many big blocks a history may still get
+    pub big_blocks_left: u64,
     /// out of 100: identifiers that are long / contain quotes, backslashes, non-ASCII
     pub p_odd_ids: u64,
 }
@@ -510,6 +514,8 @@ impl Default for Profile {
             p_future_nonce: 30,
             use_probe: true,
             p_big_block: 0,
+            huge_pct: 25,
+            big_blocks_left: 3,
             p_odd_ids: 0,
         }
     }
@@ -883,12 +889,13 @@ impl World {
             d.exec(Op::Init { hash, ts: self.ts, height: self.base });
             return;
         }
-        if self.profile.p_big_block > 0 && !self.tools.is_empty() && self.rng.chance(self.profile.p_big_block, 100) {
+        if self.profile.p_big_block > 0 && self.profile.big_blocks_left > 0 && !self.tools.is_empty() && self.rng.chance(self.profile.p_big_block, 100) {
+            self.profile.big_blocks_left -= 1;
             // a block whose transaction (and log) indices cross 255 -> 256
             BIG_BLOCKS.fetch_add(1, std::sync::atomic::Ordering::Relaxed);
             let blk = self.block_ctx(d);
             // ... and now and then four-digit counts
-            let n = if self.rng.chance(1, 4) { self.rng.range(1025, 1100) } else { self.rng.range(257, 300) };
+            let n = if self.rng.chance(self.profile.huge_pct, 100) { self.rng.range(1025, 1100) } else { self.rng.range(257, 300) };
             let pk = self.pks[0].clone();
             let tool = self.tools[0].clone();
             for i in 0..n {
